@@ -3,27 +3,36 @@
 except the property's title and statement)."""
 import json, sys
 pid = sys.argv[1]
+out = sys.argv[2] if len(sys.argv) > 2 else pid      # directory suffix: /tmp/seed/<out>, /tmp/seed/<out>-out
+import glob, os
+prev = []
+for mp in sorted(glob.glob('/verif/seeded/%s-*/meta.json' % pid)):
+    try: prev.append(json.load(open(mp)).get('summary') or '')
+    except Exception: pass
 p = next(json.loads(l) for l in open('/verif/properties.jsonl') if json.loads(l)['id'] == pid)
-print(f"""You are a Go engineer helping to evaluate a verification tool by seeding realistic regressions into the open-source media server MediaMTX. Work ONLY inside the git worktree /tmp/seed/{pid} (a checkout of the project at its current HEAD) and the output directory /tmp/seed/{pid}-out. Do NOT read, list, or touch anything under /verif, /repo, /root or any other /tmp/seed/* directory — your work must be independent of the tool under evaluation.
+AVOID = ""
+if prev and out != pid:
+    AVOID = "ALREADY DONE by earlier engineers (do NOT repeat these mechanisms or close variants; look for a different part of the code that implements the property, a different kind of mistake, a different trigger):\n" + "\n".join(" - " + x[:400] for x in prev) + "\n\n"
+print(f"""You are a Go engineer helping to evaluate a verification tool by seeding realistic regressions into the open-source media server MediaMTX. Work ONLY inside the git worktree /tmp/seed/{out} (a checkout of the project at its current HEAD) and the output directory /tmp/seed/{out}-out. Do NOT read, list, or touch anything under /verif, /repo, /root or any other /tmp/seed/* directory — your work must be independent of the tool under evaluation.
 
 PROPERTY that holds of the unmodified code ("{p['title']}"):
 {p['statement']}
 
-TASK. Produce up to TWO substantively different changes (do the first completely before starting the second; one excellent one is better than two weak ones). Each change edits the project's NON-test Go source so that the property above is BROKEN, while:
+{AVOID}TASK. Produce up to TWO substantively different changes (do the first completely before starting the second; one excellent one is better than two weak ones). Each change edits the project's NON-test Go source so that the property above is BROKEN, while:
  (a) the project still compiles (`go build` of the affected packages and their dependents you can build),
  (b) every EXISTING test of the affected packages still passes (`go test` on them — run them),
  (c) the change looks like something a maintainer could plausibly commit (a refactor, an optimisation, a "simplification", an off-by-one in a rewritten loop, a changed comparison, a cache, reordered steps …) — not an obviously malicious edit, no dead giveaways in comments,
  (d) the breakage needs something SPECIFIC to manifest: a particular input or boundary value, a multi-step sequence of operations, a particular interleaving or fault, an unusual configuration, or two cooperating sites that each look fine alone. Changes that ordinary use or the first smoke test would expose at once are not wanted.
 Read the relevant source first to find where the property is implemented.
 
-For each change also write a DEMONSTRATION: a new Go test file (name it zz_seed_demo_test.go, in the package where it is most natural; it may use unexported identifiers) that FAILS with your change and PASSES on the unmodified code. You MUST verify both directions yourself (e.g. `git diff > ../{pid}-out/N/patch.diff`, `git checkout -- .` to get the clean tree (your untracked demo test stays), run the demo → must pass; `git apply ../{pid}-out/N/patch.diff`, run the demo → must fail; also run the package's existing tests with the patch applied → must pass).
+For each change also write a DEMONSTRATION: a new Go test file (name it zz_seed_demo_test.go, in the package where it is most natural; it may use unexported identifiers) that FAILS with your change and PASSES on the unmodified code. You MUST verify both directions yourself (e.g. `git diff > ../{out}-out/N/patch.diff`, `git checkout -- .` to get the clean tree (your untracked demo test stays), run the demo → must pass; `git apply ../{out}-out/N/patch.diff`, run the demo → must fail; also run the package's existing tests with the patch applied → must pass).
 
-DELIVER for change N (N = 1, 2) in /tmp/seed/{pid}-out/N/ :
+DELIVER for change N (N = 1, 2) in /tmp/seed/{out}-out/N/ :
   patch.diff   — `git diff` of the non-test source change only (must apply with `git apply` to a clean checkout; do not include the demo test or generated files)
   zz_seed_demo_test.go — the demonstration, plus a one-line comment at its top saying which package directory it belongs in
   meta.json    — {{"property": "{pid}", "summary": "...", "needs_to_manifest": "...", "files_changed": [...], "demo_package": "./internal/...", "commands_run": ["..."], "demo_fails_with_patch": true, "demo_passes_without_patch": true, "existing_tests_pass_with_patch": true}}
-When finished leave the worktree CLEAN (`git checkout -- . && git clean -fdq` inside /tmp/seed/{pid}).
+When finished leave the worktree CLEAN (`git checkout -- . && git clean -fdq` inside /tmp/seed/{out}).
 
-BUILD ENVIRONMENT (offline sandbox). In every shell call: `cd /tmp/seed/{pid} && GOFLAGS=-mod=mod GOPROXY=off go test -count=1 ./internal/<pkg>/` . Do NOT set GOTOOLCHAIN or GOSUMDB (the repo needs go1.26.0 through the automatic toolchain switch, which those break). No network. Packages internal/core and internal/servers/hls do not build out of the box because two generated embed files are missing; if you need them create `internal/core/VERSION` (content `v0.0.0`) and `internal/servers/hls/hls.min.js` (any content) in the worktree, and do not include them in patch.diff. Some tests are slow; run only the affected packages.
+BUILD ENVIRONMENT (offline sandbox). In every shell call: `cd /tmp/seed/{out} && GOFLAGS=-mod=mod GOPROXY=off go test -count=1 ./internal/<pkg>/` . Do NOT set GOTOOLCHAIN or GOSUMDB (the repo needs go1.26.0 through the automatic toolchain switch, which those break). No network. Packages internal/core and internal/servers/hls do not build out of the box because two generated embed files are missing; if you need them create `internal/core/VERSION` (content `v0.0.0`) and `internal/servers/hls/hls.min.js` (any content) in the worktree, and do not include them in patch.diff. Some tests are slow; run only the affected packages. Other jobs on this host may hold TCP ports used by the project's tests (8554, 9997, 8000): run network-bound tests inside `unshare -rn sh -c 'ip link set lo up; ...'`. Use unique names for scratch files under /tmp (prefix them with seed{out}-) and never use `git stash`.
 
 Your final message: for each change, 3–5 lines: what it changes, why it still passes the existing tests, what it needs to manifest, and the exact commands that show demo pass/fail.""")
